@@ -314,6 +314,11 @@ impl<R: Round> Context<R> {
             // powering exp(r)^(Bⁿ) amplifies the relative error of the series by Bⁿ: both have to be
             // covered by the working precision.
             let x_log2 = x.log2_est();
+            // |x| > 2^BITS * B > isize::MAX * ln(B): s = floor(x / logB) can't fit in an isize.
+            // Decide this before the working precision is extended by the integer digits of x.
+            if x_log2 > isize::BITS as f32 + B.log2_est() + 1. {
+                panic!("exponent is too large");
+            }
             let int_digits = if x_log2 > 0. {
                 (x_log2 / B.log2_est()) as usize + 1
             } else {
